@@ -392,7 +392,7 @@ def tlc_generate(ctx, name, **kw):
     kw = dict(kw)
     kw["root"] = "TRUE" if kw.get("root") else "FALSE"
     cfg = GEN_CFG % kw
-    r = vlib.run_tlc(ctx, "MCUnused", "gen_%s.cfg" % name, workers=min(vlib.NCPU, 8), timeout=3000,
+    r = vlib.run_tlc(ctx, "MCUnused", "gen_%s.cfg" % name, workers=4, timeout=3000,
                      extra_files={"gen_%s.cfg" % name: cfg})
     vlib.tlc_require_ok(r, "Unused generation %s" % name)
     # graphs dropped by the Thin constraint are emitted and checked but not counted as states
@@ -517,3 +517,12 @@ def select(ctx, cases, n, cover=2, rare_cover=10):
     rest.sort(key=lambda i: -int(mixed(cases[i])))
     chosen += rest[: max(0, n - len(chosen))]
     return [cases[i] for i in sorted(chosen)]
+
+
+def cap(n):
+    """VERIF_CAP=<k> caps the number of replayed cases (smoke runs of the thorough path)."""
+    try:
+        k = int(os.environ.get("VERIF_CAP", "0"))
+    except ValueError:
+        k = 0
+    return min(n, k) if k > 0 else n
